@@ -755,6 +755,9 @@ pub fn gen_main(args: &[String]) -> i32 {
         "flags" => crate::gen2::suite_flags(&mut out, tier, &mut rng),
         "fault" => crate::gen2::suite_fault(&mut out, tier, &mut rng),
         "threads" => crate::gen2::suite_threads(&mut out, tier, &mut rng),
+        "ignored" => crate::gen2::suite_ignored(&mut out, tier, &mut rng),
+        "reveal_plain" => crate::gen2::suite_reveal_plain(&mut out, tier, &mut rng),
+        "ctl_records" => crate::gen2::suite_ctl_records(&mut out, tier, &mut rng),
         other => {
             eprintln!("unknown suite {other}");
             return 2;
